@@ -43,9 +43,10 @@ var configs = []fiber.Config{
 	{},                                   // + custom ctx
 	{BodyLimit: 64, ReadBufferSize: 512}, // + an application ErrorHandler that looks at the request (every accessor) before it answers like the default one
 	{RequestMethods: []string{"GET", "HEAD"}}, // + the same ErrorHandler, reduced method set
+	{BodyLimit: -1},                           // not a positive limit: the server's default limit applies
 }
 
-const nConfigs = 8
+const nConfigs = 9
 
 type world struct {
 	app     *fiber.App
